@@ -52,6 +52,22 @@ structure DecOut where
   fails : List String       -- property clauses that fail of what the real code did
   branch : String
 
+/-- does some token of the (complete) msgpack data `b` use the ext32 format?  Flat walk over the tokens: scalars,
+strings / binaries / extensions with their payloads, array and map headers (their elements follow as tokens). -/
+def hasExt32Tok : Nat → Bytes → Bool
+  | 0, _ => false
+  | f+1, b =>
+    match b with
+    | [] => false
+    | x :: _ =>
+      if x == 0xc9 then true else
+      match header b with
+      | some (.blob _ n, r) => hasExt32Tok f (r.drop n)
+      | some (.ext n, _ :: d) => hasExt32Tok f (d.drop n)
+      | some (.ext _, []) => false
+      | some (_, r) => hasExt32Tok f r
+      | none => false
+
 /-- `DEC ty path cls recv hex => obs [~ freshobs]` -/
 def opDEC (args obs : List String) : Option DecOut :=
   match args with
@@ -107,6 +123,9 @@ def opDEC (args obs : List String) : Option DecOut :=
           if m == go then none
           else if used == ["crash"] then none
           else if p == .stream ∧ cls == "m" ∧ (m.startsWith "ok") == (go.startsWith "ok") ∧ ¬ go.startsWith "ok" then none
+          -- stream path, model accepts, library rejects, and the input has a token in the ext32 format: the library's
+          -- `Reader.Skip` gives up on those (DESIGN 0.5); outside the modelled domain
+          else if p == .stream ∧ m.startsWith "ok" ∧ ¬ go.startsWith "ok" ∧ hasExt32Tok (b.length + 1) b then none
           else some s!"model=[{m}] go=[{go}]"
         some { corr := corr, fails := f10 ++ f13 ++ f18 ++ fAlloc,
                branch := s!"dec.{ty}.{ps}.{cls}.{if rv = "F" then "F" else "U"}.{kind}" }
@@ -292,10 +311,15 @@ def opCHUNK (args obs : List String) : Option DecOut :=
             let want := match Spec.chunkOf o with
               | some c => s!"ok {toHex c}"
               | none => "err"
-            (true, if go == want then [] else [s!"C11 option-map-chunk=[{want}] GetChunk=[{go}]"])
+            -- msgp v1.1.9 `Reader.Skip` fails on a value in the ext32 format: recorded finding, named apart
+            let tagx := if hasExt32Tok (b.length + 1) b then "C11 ext32-skip: a value in the ext32 format is in the message; " else "C11 "
+            (true, if go == want then [] else [s!"{tagx}option-map-chunk=[{want}] GetChunk=[{go}]"])
           else (false, [])
         | _ => (false, [])
-      some { corr := if m == go then none else some s!"model=[{m}] go=[{go}]", fails := f10 ++ f11,
+      -- the model's `skip` is the slice-path one; on inputs with an ext32 token the stream `Skip` of the library
+      -- deviates (DESIGN 0.5): there the model is not compared, the property oracle still is
+      let corr := if hasExt32Tok (b.length + 1) b then none else (if m == go then none else some s!"model=[{m}] go=[{go}]")
+      some { corr := corr, fails := f10 ++ f11,
              branch := s!"chunk.{cls}.{if wf then "wf" else "other"}.{(go.splitOn " ").headD "?"}" }
   | _ => none
 
